@@ -45,7 +45,9 @@ macro_rules! bodies {
         pub fn from_f64<const N: u32, S: Src>(s: &mut S) -> Outcome {
             let f = s.u64();
             let ex = ((f >> 52) & 0x7ff) as i32;
-            crate::assume!(s, ex == 0x7ff || (f << 1) == 0 || (ex >= 1023 - 160 && ex <= 1023 + 160));
+            // the scaling loops run |exponent| / 2^es times: es = 2 stays below the unwind bound up to 2^160, es = 1 up to 2^90
+            let eb = if $es == 1 { 90 } else { 160 };
+            crate::assume!(s, ex == 0x7ff || (f << 1) == 0 || (ex >= 1023 - eb && ex <= 1023 + eb));
             let got = $P::<N>::from_f64(f64::from_bits(f)).to_bits();
             let got2 = $P::<N>::from(f64::from_bits(f)).to_bits();
             cover!(N <= 2 || (got >> (32 - N)) & 1 == 1 && f & 0xffff != 0);
@@ -56,7 +58,8 @@ macro_rules! bodies {
         pub fn from_f64_short<const N: u32, const MB: u32, S: Src>(s: &mut S) -> Outcome {
             let f = s.u64();
             let ex = ((f >> 52) & 0x7ff) as i32;
-            crate::assume!(s, ex >= 1023 - 160 && ex <= 1023 + 160 && f & ((1u64 << (52 - MB)) - 1) == 0);
+            let eb = if $es == 1 { 90 } else { 160 };
+            crate::assume!(s, ex >= 1023 - eb && ex <= 1023 + eb && f & ((1u64 << (52 - MB)) - 1) == 0);
             let got = $P::<N>::from_f64(f64::from_bits(f)).to_bits();
             cover!(N <= 2 || (got >> (32 - N)) & 1 == 1 && (f >> (52 - MB)) & 1 == 1);
             cmp_n(N, got, r::from_f64_bits(N, $es, f))
@@ -64,7 +67,8 @@ macro_rules! bodies {
         pub fn from_f32<const N: u32, S: Src>(s: &mut S) -> Outcome {
             let f = s.u32();
             let ex = ((f >> 23) & 0xff) as i32;
-            crate::assume!(s, ex == 0xff || (f << 1) == 0 || (ex >= 1 && ex <= 254));
+            let eb = if $es == 1 { 90 } else { 126 };
+            crate::assume!(s, ex == 0xff || (f << 1) == 0 || (ex >= 127 - eb && ex <= 127 + eb));
             let got = $P::<N>::from_f32(f32::from_bits(f)).to_bits();
             let got2 = $P::<N>::from(f32::from_bits(f)).to_bits();
             cover!(N <= 2 || (got >> (32 - N)) & 1 == 1 && f & 0xff != 0);
